@@ -27,6 +27,16 @@ def check(pid, engine, category, text, note, technique=TECH, design=None):
                        design=design or "DESIGN.md section 7, %s" % pid)
 
 
+check("C02", "rocq-core", "proof",
+      "Theorems in coq/core/Properties/C02.v over the model Actor.v of the keyspace actor handlers: Agree (for every id the set's view — live at t / "
+      "tombstone at t / nothing — equals the store's metadata) together with the set invariant is preserved by every request (Set, MultiSet, "
+      "Del, MultiDel, PurgeDeletes) with arbitrary stamps, origins, sources, duplicates inside a bulk, and EVERY storage outcome (success, "
+      "failure, partial bulk failure writing any sub-sequence); hence after every prefix of every request history. Key lemmas: ascending "
+      "insertion order keeps every will_apply-approved entry acceptable, per-id de-duplication makes 'stored' = 'greatest stamp', re-added purge "
+      "failures restore the view. Pre-fix handlers refuted (D1, D2). Tied to actor.rs by the real KeyspaceActor on a fault-injecting store "
+      "(hx-actor): exhaustive single/pair requests with all failure points, random histories.",
+      "Trusted: Coq kernel, models Orswot.v + Actor.v, ExtrOcamlBasic + OCaml driver, the Rust executor and its Faulty<MemStore>; handlers are "
+      "atomic (one message at a time); the Storage contract for successful_doc_ids is a premise (backends: C17).")
 check("C04", "rocq-core", "proof",
       "Theorems in coq/core/Properties/C04.v over the model Orswot.v of OrSWotSet<N>, for every reachable set, every operation, every arrival "
       "sequence with distinct stamps, every source assignment: the acceptance rule (accepted iff not older than the safe cut-off), step refinement "
@@ -45,6 +55,15 @@ check("C05", "rocq-core", "proof",
       "orswot.rs by exhaustive replica pairs from <= 3 (4)-operation histories and random pairs (hx-orswot mode=c05).",
       "Trusted: Coq kernel, model Orswot.v, extraction + driver, Rust executor. Repair is conditional on acceptance (within one forgiveness "
       "period / gap-free); stamps valid with tick >= 1. The actor-level MultiDel/MultiSet path is C02/C01's subject.")
+check("C07", "rocq-core", "proof",
+      "Theorems in coq/core/Properties/C07.v: for EVERY store with valid stamps the set rebuilt by load_states_from_storage (metadata replayed "
+      "in stamp order through source 0) satisfies the set invariant and shows exactly the store's live ids and tombstones with their stamps; "
+      "after every request history and every stop between requests the rebuilt set shows what the running set showed (acknowledged mutations "
+      "survive); for a stop in the middle of a request (after the storage write, any outcome) the restarted node shows what the store holds; "
+      "the restarted node satisfies the hypotheses of the convergence theorems. Tied to group.rs/actor.rs by restarts and mid-request kills of "
+      "the real KeyspaceGroup on the same store (hx-actor).",
+      "Trusted: as C02. Durability of an acknowledged write (SQLite WAL/synchronous=normal, LMDB commit, OS) is outside the model: a returned "
+      "write is assumed to be in the store; persistent backends' reopen behaviour is C17's subject.")
 check("C08", "rocq-core", "proof",
       "Theorems in coq/core/Properties/C08.v over Orswot.v: a purge keeps live entries and versions, removes exactly the tombstones older than "
       "their origin's cut-off; the cut-off never moves backwards, so a purged delete stays rejected (any key, any source, after any further "
